@@ -100,10 +100,20 @@ type shVal struct {
 type shWorld struct {
 	byHash map[[32]byte]shVal
 	ems    map[[32]byte]string
+	keys   *vhKeys
 }
 
+// The VAAs of the store family carry genuine signatures of the keys s1..s4 at indexes 0..3 of the five-key set
+// shSetNames (quorum 4): one to four of them, so most are NOT complete under that set.  The store itself never looks at
+// signatures; a caller that decides by itself what to put into the store does.
+var shSetNames = []string{"s1", "s2", "s3", "s4", "s5"}
+
 func shNewWorld() *shWorld {
-	return &shWorld{byHash: map[[32]byte]shVal{}, ems: map[[32]byte]string{}}
+	w := &shWorld{byHash: map[[32]byte]shVal{}, ems: map[[32]byte]string{}, keys: vhNewKeys("store-world")}
+	for _, n := range shSetNames {
+		w.keys.Key(n) // created here, only read afterwards
+	}
+	return w
 }
 
 func (w *shWorld) addr(em string) [32]byte {
@@ -154,6 +164,12 @@ func (w *shWorld) build(id shID, tag string, plen int) *vhVAA {
 		}
 	}
 	v.Payload = vhExpand(fmt.Sprintf("pl|%x", h[:12]), plen)
+	if w.keys != nil {
+		dg := v.Digest()
+		for i := range v.Sigs {
+			copy(v.Sigs[i].Sig[:], w.keys.Sign(shSetNames[i], dg))
+		}
+	}
 	return v
 }
 
